@@ -266,6 +266,9 @@ class _ImmutableTaskList:
         if key is not None and not callable(key):
             raise RuntimeError(f"Unsupported key type: {type(key)}")
 
+        # A one-shot iterable given to _in_ / _not_in_ is read once, not once per task
+        kwargs = {k: (list(v) if k.endswith('_in_') and iter(v) is v else v) for k, v in kwargs.items()}
+
         def search(t, **kw):
             for k, v in kw.items():
                 if k.endswith("_not_like_"):
